@@ -175,7 +175,7 @@ def main():
         print(Counter(m["op"] for m in ms))
         return
     a = sys.argv[2:]
-    jobs, only, limit, sample = 8, None, None, None
+    jobs, only, limit, sample, surv = 8, None, None, None, None
     pos = []
     while a:
         x = a.pop(0)
@@ -187,11 +187,16 @@ def main():
             limit = int(a.pop(0))
         elif x == "--sample":
             sample = int(a.pop(0))
+        elif x == "--survivors":
+            surv = a.pop(0)
         else:
             pos.append(x)
     run = str(os.getpid())
     if cmd == "static":
         ms = gen()
+        if surv:
+            keep = {(r["file"], r["line"], r["op"], r["before"], r["after"]) for r in json.load(open(surv)) if r.get("tests") == "survives"}
+            ms = [m for m in ms if (m["file"], m["line"], m["op"], m["before"], m["after"]) in keep]
         if only:
             ms = [m for m in ms if only in m["file"] or only == m["op"]]
         if sample:
